@@ -102,8 +102,9 @@ func c03order(c *core.Ctx) {
 }
 
 // c03unquote: the JSON string decoder's tables.
-func c03unquote(c *core.Ctx) {
-	const R = "C03.unquote"
+func c03unquote(c *core.Ctx) { c03unquoteAs(c, "C03.unquote") }
+
+func c03unquoteAs(c *core.Ctx, R string) {
 	c.Rule(R, "the per-byte tables of the JSON string decoder bytes.unquoteBytes/getu4, evaluated for all 256 byte values: (hex) getu4 maps '0'-'9' to 0-9, 'a'-'f' and 'A'-'F' to 10-15 and rejects every other byte; (esc) the escape switch maps \\\" \\\\ \\/ to themselves and b f n r t to the control characters 8 12 10 13 9, hands `u` to getu4 and rejects everything else (the historical \\' of encoding/json is tolerated). A wrong cell decodes keys/values to other text than written (GetAST, example keys)")
 	c.Floor(R, 256)
 	d := c.P.FindDecl("bytes.getu4")
